@@ -306,10 +306,12 @@ class Rejected(Exception):
         self.etype, self.frame, self.msg = etype, frame, msg
 
     def klass(self):
-        head = re.split(r"[(\[]", self.msg, maxsplit=1)[0]
-        head = re.sub(r"[0-9]+", "N", head)[:40].strip()
         if self.etype == "RecursionError":
-            return "rejected:RecursionError"
+            return "rejected:RecursionError:graph/relooper.py (structuring does not terminate)"
+        head = re.split(r"[(\[]", self.msg, maxsplit=1)[0].strip()
+        if not re.fullmatch(r"[A-Z][A-Z0-9]+", head):  # not a selection-tree operator name: drop the variable parts
+            head = re.sub(r"CFG-node.*", "CFG-node", head)
+            head = re.sub(r"[0-9]+", "N", head)[:60].strip()
         return "rejected:%s:%s:%s" % (self.etype, self.frame, head)
 
 
@@ -483,9 +485,29 @@ def run_case(case, stats=None):
         for gname, parts in mem.items():
             hx = b"".join(parts).hex()
             want = ref["globals"][gname]
-            if not irsem._hex_match(want, hx):
+            if not irsem._hex_match(want, hx) and not _nan_only(want, hx):
                 return "%s: memory of global %s after the call: IR semantics %s, wasm %s" % (where, gname, want, hx), info
     return None, info
+
+
+def _nan_only(want, got):
+    """True when the two memory images differ only where both hold a NaN of the same float format (the sign and
+    payload of a NaN produced by an operation are not defined by IR semantics; V8 and CPython choose differently)."""
+    if len(want) != len(got):
+        return False
+    a = [want[i:i + 2] for i in range(0, len(want), 2)]
+    b = [got[i:i + 2] for i in range(0, len(got), 2)]
+    explained = [x == y or x == "??" for x, y in zip(a, b)]
+    for size, expmask, manmask in ((8, 0x7FF0000000000000, 0x000FFFFFFFFFFFFF), (4, 0x7F800000, 0x007FFFFF)):
+        for off in range(0, len(a) - size + 1):
+            if all(explained[off:off + size]) or "??" in a[off:off + size]:
+                continue
+            x = int.from_bytes(bytes.fromhex("".join(a[off:off + size])), "little")
+            y = int.from_bytes(bytes.fromhex("".join(b[off:off + size])), "little")
+            if all((v & expmask) == expmask and (v & manmask) for v in (x, y)):
+                for k in range(off, off + size):
+                    explained[k] = True
+    return all(explained)
 
 
 def _is_procedure(f):
@@ -579,31 +601,107 @@ def replay(case):
         close_node()
 
 
-def classify(case, msg):
-    """Attribute a failure to an open finding (narrow: input shape AND kind of wrong outcome)."""
-    try:
-        m, _ = build_module(case)
-    except Exception:
-        return None
-    semantic = ": return value:" in msg or ": external call trace:" in msg or ": memory of global" in msg or "V8 traps" in msg or "does not finish" in msg
-    if semantic and any(dropped_edges(f) for f in m.functions):
-        return "C23-KF6"
-    return None
-
-
 # ---------------------------------------------------------------------------
-# search
+# open findings: shapes (for exclusion and classification)
 
-def calls_for(draw, desc, profile):
-    calls = []
+KF_ALL = ("KF1", "KF2", "KF3", "KF4", "KF5", "KF6", "KF7")
+_WIDENING = {("i8", "i32"), ("u8", "i32"), ("i16", "i32"), ("u16", "i32"), ("u8", "u32"), ("u16", "u32")}
+
+
+def open_kfs():
+    """Short ids of the findings to steer away from: the open ones, minus $VERIF_C23_NOEXCLUDE (comma separated short
+    ids, or 'all'): used to validate a fix, e.g. VERIF_C23_NOEXCLUDE=KF1 tools/withpatch.sh fixes/C23-narrow-wrap.diff -- ./check C23 quick"""
+    import os
+
+    from ..core import open_finding_ids
+
+    ids = {i.split("-")[1] for i in open_finding_ids(PID)}
+    off = os.environ.get("VERIF_C23_NOEXCLUDE", "")
+    if off == "all":
+        return ()
+    return tuple(sorted(ids - set(x.strip() for x in off.split(","))))
+
+
+def hazards(m):
+    """Short ids of the value-level findings whose triggering instruction occurs in module m."""
+    from ppci import ir
+
+    hz = set()
+    for f in m.functions:
+        if f.name.startswith(PREFIX):
+            continue
+        for b in f.blocks:
+            for ins in b.instructions:
+                ty = getattr(ins, "ty", None)
+                tn = ty.name if ty is not None and hasattr(ty, "name") else None
+                if isinstance(ins, ir.Binop) and tn in NARROW and ins.operation in ("+", "-", "*", "<<"):
+                    hz.add("KF1")
+                elif isinstance(ins, ir.Unop) and tn in NARROW:
+                    hz.add("KF1")
+                elif isinstance(ins, ir.Cast):
+                    sn = ins.src.ty.name
+                    if tn in NARROW and sn != tn and (sn, tn) not in _WIDENING:
+                        hz.add("KF1")
+                    if sn in ("f32", "f64") and tn not in ("f32", "f64"):
+                        hz.add("KF2")
+                    if (sn, tn) == ("u32", "f32"):
+                        hz.add("KF3")
+                    if (sn, tn) == ("i32", "u64"):
+                        hz.add("KF4")
+                elif isinstance(ins, ir.Const) and tn == "u64" and isinstance(ins.value, int) and ins.value >= 1 << 63:
+                    hz.add("KF5")
+    return hz
+
+
+def phi_on_branch_edge(desc):
     for f in desc["functions"]:
-        for _ in range(draw(st.integers(1, 2))):
-            calls.append([f["name"], draw(genir.arg_strategy(f, profile))])
-    return calls
+        phib = set(b["name"] for b in f["blocks"] if b["ins"] and b["ins"][0][0] == "phi")
+        for b in f["blocks"]:
+            t = b["ins"][-1]
+            if t[0] == "cjmp" and t[4] != t[5] and (t[4] in phib or t[5] in phib):
+                return True
+    return False
+
+
+def split_phi_edges(desc):
+    """Semantics-preserving: every edge from a two-way branch into a block with phis gets its own empty block
+    (the shape C23-KF7 needs is a phi copy placed in a block that has a second way out).  -> (description, edges split)"""
+    import copy
+
+    desc = copy.deepcopy(desc)
+    n = 0
+    for f in desc["functions"]:
+        byname = {b["name"]: b for b in f["blocks"]}
+        phib = set(b["name"] for b in f["blocks"] if b["ins"] and b["ins"][0][0] == "phi")
+        new = []
+        for b in list(f["blocks"]):
+            t = b["ins"][-1]
+            if t[0] != "cjmp" or t[4] == t[5]:
+                continue
+            for pos in (4, 5):
+                tgt = t[pos]
+                if tgt not in phib:
+                    continue
+                e = "%s_e%d" % (b["name"], pos)
+                new.append({"name": e, "ins": [["jmp", tgt]]})
+                t[pos] = e
+                for ins in byname[tgt]["ins"]:
+                    if ins[0] == "phi" and b["name"] in ins[3]:
+                        ins[3][e] = ins[3].pop(b["name"])
+                n += 1
+        if new:
+            base = len(f["blocks"])
+            f["blocks"] = f["blocks"] + new
+            f["layout"] = list(f.get("layout") or range(base)) + list(range(base, base + len(new)))
+    return desc, n
 
 
 def steer(desc, exclude, excluded=None):
     """Generator-side exclusion of open findings that cannot be expressed as a Profile restriction."""
+    if "KF7" in exclude:
+        desc, n = split_phi_edges(desc)
+        if n and excluded is not None:
+            excluded["C23-KF7"] += 1
     if "KF5" in exclude:
         for f in desc["functions"]:
             for b in f["blocks"]:
@@ -615,30 +713,114 @@ def steer(desc, exclude, excluded=None):
     return desc
 
 
+def classify(case, msg):
+    """Attribute a failure to an open finding: the triggering shape is in the module AND the failure is of the kind
+    the finding produces (validation message of the very opcode / a semantic difference that disappears under the
+    semantics-preserving rewrite that removes the shape)."""
+    try:
+        m, _ = build_module(case)
+    except Exception:
+        return None
+    semantic = any(k in msg for k in (": return value:", ": external call trace:", ": memory of global", "V8 traps", "does not finish"))
+    hz = hazards(m)
+    if "does not validate" in msg:
+        if "KF3" in hz and "f32.convert_i32_u" in msg:
+            return "C23-KF3"
+        if "KF5" in hz and "extra bits in varint" in msg:
+            return "C23-KF5"
+        return None
+    if not semantic:
+        return None
+    if any(dropped_edges(f) for f in m.functions):
+        return "C23-KF6"
+    if "module" in case and phi_on_branch_edge(case["module"]):
+        c2 = dict(case)
+        c2["module"] = split_phi_edges(case["module"])[0]
+        try:
+            if run_case(c2)[0] is None:
+                return "C23-KF7"
+        except Exception:
+            pass
+    for k in ("KF1", "KF2", "KF4"):
+        if k in hz:
+            return "C23-" + k
+    return None
+
+
+# ---------------------------------------------------------------------------
+# search
+
+def full_profile(exclude=()):
+    """Full instruction menu (what ir_to_wasm does not implement is REJECTED and counted by class) minus the shapes
+    of the open findings."""
+    forb = [x for x in _wasm_forbidden(exclude) if x not in set(_wasm_forbidden(()))]
+    return genir.Profile(name="c23-full", ptr_bits=32, permute_blocks=True, obs_type="i64", forbidden=forb)
+
+
+def calls_for(draw, desc, profile):
+    calls = []
+    for f in desc["functions"]:
+        for _ in range(draw(st.integers(1, 2))):
+            calls.append([f["name"], draw(genir.arg_strategy(f, profile))])
+    return calls
+
+
 @st.composite
-def ir_case_strategy(draw, profile=PROFILE, exclude=()):
-    desc = steer(draw(genir.modules(profile)), exclude)
-    return {"module": desc, "calls": calls_for(draw, desc, profile), "init": "stores"}
+def ir_case_strategy(draw, profile=PROFILE, exclude=(), init="stores", excluded=None, variant="main"):
+    desc = steer(draw(genir.modules(profile)), exclude, excluded)
+    return {"module": desc, "calls": calls_for(draw, desc, profile), "init": init, "variant": variant}
+
+
+@st.composite
+def c_case_strategy(draw, exclude=()):
+    from .. import gencc
+
+    opt = gencc.Options(max_funcs=3, max_stmts=5, structs=False, floats="KF2" not in exclude, switch=False)
+    p = draw(gencc.programs(opt))
+    calls = []
+    for f in p["funcs"]:
+        for v in gencc.arg_vectors(draw, f, draw(st.integers(1, 2))):
+            calls.append([f["name"], [["buf", 0] if a == "buf" else (genir.fhex(a) if isinstance(a, float) else a) for a in v]])
+    return {"src": p["src"], "calls": calls, "init": draw(st.sampled_from(["stores", "stores", "data"])), "variant": "c"}
+
+
+@st.composite
+def case_strategy(draw, exclude=(), excluded=None):
+    r = draw(st.integers(0, 99))
+    if r < 58:
+        return draw(ir_case_strategy(wasm_profile(exclude), exclude, "stores", excluded, "main"))
+    if r < 68:
+        return draw(ir_case_strategy(wasm_profile(exclude, literals=True), exclude, "data", excluded, "static_data"))
+    if r < 74:
+        return draw(ir_case_strategy(wasm_profile(exclude, distinct_cjmp_targets=False), exclude, "stores", excluded, "same_target_cjmp"))
+    if r < 86:
+        return draw(ir_case_strategy(full_profile(exclude), exclude, "stores", excluded, "full_menu"))
+    return draw(c_case_strategy(exclude))
 
 
 def _worker(arg):
     seed, n = arg
     stats = Stats()
+    exclude = open_kfs()
 
     def prop(case):
         msg, info = run_case(case, stats)
+        var = case.get("variant", "main")
+        for k in exclude:
+            if k not in ("KF5", "KF6", "KF7"):
+                stats.excluded["C23-" + k] += 1
         nt = info["translated"] and info["executed"] > 0
-        classes = list(info["classes"]) if info["translated"] else []
         if info["reject"] is not None:
-            classes = [info["reject"].klass(), "rejected"]
-        elif info["translated"]:
-            classes.append("translated")
-            classes.append("executed_calls:%d" % min(info["executed"], 4))
+            classes = [info["reject"].klass(), "rejected", "rejected[%s]" % var]
+        else:
+            classes = list(info["classes"]) + ["translated", "translated[%s]" % var, "executed_calls:%d" % min(info["executed"], 4)]
+            if nt:
+                classes.append("executed[%s]" % var)
         key = None
         sample = None
         if nt:
-            key = str(case.get("module") or case.get("src"))[:6000] + str(case["calls"])
-            sample = {"calls": case["calls"][:2], "init": case.get("init"), "classes": info["classes"]}
+            key = str(case.get("module") or case.get("src"))[:8000] + str(case["calls"]) + case.get("init", "")
+            sample = {"variant": var, "calls": case["calls"][:2], "init": case.get("init"), "classes": info["classes"]}
             if "module" in case:
                 sample["last_function"] = case["module"]["functions"][-1]
             else:
@@ -647,15 +829,32 @@ def _worker(arg):
         return msg
 
     try:
-        fails = hyp_search(ir_case_strategy(), prop, n, seed, stats, classify=classify)
+        fails = hyp_search(case_strategy(exclude, stats.excluded), prop, n, seed, stats, classify=classify)
     finally:
         close_node()
     return stats, fails
 
 
 def run(ctx):
-    n = ctx.scale(320, 20000)
+    n = ctx.scale(1600, 48000)
     ctx.pmap(_worker, [(subseed(ctx.seed, PID, w), max(1, n // 16)) for w in range(16)])
+    h = ctx.stats.hist
+    rej = {k: v for k, v in h.items() if str(k).startswith("rejected:")}
+    ctx.extra["rejections_by_class"] = dict(sorted(rej.items(), key=lambda kv: -kv[1]))
+    ctx.extra["translated"] = h.get("translated", 0)
+    ctx.extra["rejected"] = h.get("rejected", 0)
+    unreachable = []
+    if h.get("translated[static_data]", 0) == 0:
+        unreachable.append("globals/literals with STATIC initial data: ir_to_wasm rejects every module that needs a data segment "
+                           "(ValueError in components.Data, see fixes/C23-data-segment.diff); initial data is covered only "
+                           "through the generated c23_init() stores")
+    if h.get("executed[c]", 0) == 0:
+        unreachable.append("no C program was translated and executed in this run")
+    for c in ("cfg:loop", "cfg:loop_with_two_exits", "cfg:nested_loops", "cfg:irreducible", "call:indirect", "call:external", "phi"):
+        if h.get(c, 0) == 0:
+            unreachable.append("class %s never translated in this run" % c)
+    ctx.extra["classes_not_reached"] = unreachable
+    ctx.extra["excluded_by_open_findings"] = list(open_kfs())
 
 
 # ---------------------------------------------------------------------------
